@@ -175,17 +175,36 @@ def run_cases_in_coq(exec_module, case_terms, work, tag, shard=250, prelude=""):
 
 
 # ------------------------------------------------------------------- Go side
-def build_harness(work, binary="hv", tags="verif", overlay=None):
-    """build the harness against the current /repo working tree"""
-    shutil.copy(os.path.join(REPO, "go.sum"), os.path.join(HARNESS, "go.sum"))
+def make_overlay(work, extra=None):
+    """overlay.json: hook files of /verif/tools/hooks/<pkg>/*.go appear in
+    REPO/<pkg>/zz_verif_<name>; nothing is written into the repository"""
+    repl = {}
+    hooks = os.path.join(VERIF, "tools", "hooks")
+    for root, _, files in os.walk(hooks):
+        for f in files:
+            if f.endswith(".go"):
+                rel = os.path.relpath(root, hooks)
+                repl[os.path.join(REPO, rel, "zz_verif_" + f)] = os.path.join(root, f)
+    if extra:
+        repl.update(extra)
+    p = work.path("overlay.json")
+    json.dump({"Replace": repl}, open(p, "w"), indent=1)
+    return p
+
+
+def build_harness(work, binary="hv", tags="verif", extra_overlay=None):
+    """build the harness against the current working tree of REPO.  The
+    module file is generated (replace => REPO) so that nothing under /verif
+    or REPO is modified by a build."""
+    modsrc = open(os.path.join(HARNESS, "go.mod")).read().replace("=> /repo", "=> " + REPO)
+    modfile = work.path("go.mod")
+    open(modfile, "w").write(modsrc)
+    shutil.copy(os.path.join(REPO, "go.sum"), work.path("go.sum"))
     out_bin = work.path(binary)
-    cmd = ["go", "build", "-tags", tags]
-    if overlay:
-        cmd += ["-overlay", overlay]
-    cmd += ["-o", out_bin, "./cmd/" + binary]
-    env = dict(GOENV)
-    env["VERIF_REPO"] = REPO
-    rc, out = sh(cmd, cwd=HARNESS, env=env, timeout=900)
+    overlay = make_overlay(work, extra_overlay)
+    cmd = ["go", "build", "-modfile", modfile, "-tags", tags, "-overlay", overlay,
+           "-o", out_bin, "./cmd/" + binary]
+    rc, out = sh(cmd, cwd=HARNESS, env=dict(GOENV), timeout=900)
     return (out_bin if rc == 0 else None), out
 
 
